@@ -380,42 +380,117 @@ Definition step_ok (q pre rest : str) (t : token) (st' : state) : Prop :=
 Lemma at_pos_assoc q pre a b rest st : at_pos q ((pre ++ a) ++ b) rest st -> at_pos q (pre ++ a ++ b) rest st.
 Proof. rewrite <- app_assoc. exact (fun H => H). Qed.
 
-(* Tokenizer::take_quoted_string: the body up to the first quote, then the quote if there is one *)
-Lemma quoted_spec qc q pre rest st :
-  blen q < USIZE -> at_pos q pre rest st -> inv q st ->
-  exists body st' src rest',
-    take_quoted_string qc q st = Ok (body, st') /\ rest = src ++ rest' /\ ~ In qc body /\
-    (src = body ++ [qc] \/ (src = body /\ rest' = [])) /\
-    at_pos q (pre ++ src) rest' st' /\ inv q st'.
+Lemma escape_noq qc : forall t, forallb (fun c => negb (c =? qc)) t = true -> escape qc t = t.
 Proof.
-  intros Hlen Hp Hi.
+  induction t as [|c t IH]; intros H; [reflexivity|].
+  cbn [forallb] in H. apply andb_true_iff in H as [H1 H2]. cbn [escape].
+  apply negb_true_iff in H1. rewrite H1, (IH H2). reflexivity.
+Qed.
+
+Lemma escape_app qc : forall a b, escape qc (a ++ b) = escape qc a ++ escape qc b.
+Proof.
+  induction a as [|c a IH]; intros b; [reflexivity|].
+  cbn [app escape]. rewrite IH. destruct (c =? qc); reflexivity.
+Qed.
+
+Lemma escape_quote_cons qc b : escape qc (qc :: b) = qc :: qc :: escape qc b.
+Proof. cbn [escape]. rewrite N.eqb_refl. reflexivity. Qed.
+
+(* Tokenizer::take_quoted_string: the loop collects the content up to the closing quote, collapsing doubled
+   quotes; at end of input it answers Unterminated *)
+Lemma quoted_loop_spec qc q :
+  blen q < USIZE -> forall fuel pre rest st acc,
+  at_pos q pre rest st -> inv q st -> (length rest < fuel)%nat ->
+  match quoted_loop fuel qc q st acc with
+  | Ok (body, st') =>
+    exists b rest', body = acc ++ b /\ rest = escape qc b ++ qc :: rest' /\ ~ (exists r, rest' = qc :: r) /\
+                    at_pos q (pre ++ escape qc b ++ [qc]) rest' st' /\ inv q st'
+  | Err e => e = Unterminated qc /\ exists b, rest = escape qc b
+  | _ => False
+  end.
+Proof.
+  intros Hlen. induction fuel as [|f IH]; intros pre rest st acc Hp Hi Hfuel; [lia|].
+  cbn [quoted_loop].
   destruct (take_while_spec (stateless (fun c => negb (c =? qc))) tt q pre rest st Hlen Hp Hi) as [st1 [Htw [Hp1 Hi1]]].
   pose proof (span_st_app (stateless (fun c => negb (c =? qc))) rest tt) as Hsp.
   destruct (span_stateless (fun c => negb (c =? qc)) rest) as [Hall Hd].
   set (t := fst (span_st (stateless (fun c => negb (c =? qc))) tt rest)) in *.
   set (d := snd (span_st (stateless (fun c => negb (c =? qc))) tt rest)) in *.
-  unfold take_quoted_string. rewrite Htw. cbn [bind fst snd].
+  pose proof (escape_noq qc t Hall) as Het.
+  rewrite Htw. cbn [bind fst snd].
   destruct Hd as [Hd | [x [d' [Hd Hx]]]].
-  - rewrite Hd in Hp1. destruct (next_spec_nil q (pre ++ t) st1 Hp1 Hi1) as [st2 [Hn [Hp2 Hi2]]].
-    rewrite Hn. cbn [bind fst snd]. exists t, st2, t, []. repeat split.
-    + rewrite Hsp, Hd. reflexivity.
-    + apply forallb_not_in. exact Hall.
-    + right. split; reflexivity.
-    + apply Hp2.
-    + apply Hp2.
-    + apply Hi2.
-    + apply Hi2.
+  - (* end of input inside the string *)
+    rewrite Hd in Hp1. destruct (next_spec_nil q (pre ++ t) st1 Hp1 Hi1) as [st2 [Hn [Hp2 Hi2]]].
+    rewrite Hn. cbn [bind fst snd]. split; [reflexivity|]. exists t.
+    rewrite Hsp, Hd, app_nil_r, Het. reflexivity.
   - apply negb_false_iff, N.eqb_eq in Hx. subst x. rewrite Hd in Hp1.
     destruct (next_spec_cons q (pre ++ t) qc d' st1 Hlen Hp1 Hi1) as [st2 [Hn [Hp2 Hi2]]].
-    rewrite Hn. cbn [bind fst snd]. apply at_pos_assoc in Hp2.
-    exists t, st2, (t ++ [qc]), d'. repeat split.
-    + rewrite Hsp, Hd, <- app_assoc. reflexivity.
-    + apply forallb_not_in. exact Hall.
-    + left. reflexivity.
-    + apply Hp2.
-    + apply Hp2.
-    + apply Hi2.
-    + apply Hi2.
+    rewrite Hn. cbn [bind fst snd].
+    destruct (peek_spec q ((pre ++ t) ++ [qc]) d' st2 Hp2 Hi2) as [st3 [Hpk [Hp3 Hi3]]].
+    rewrite Hpk. cbn [bind fst snd].
+    assert (Hpre : (pre ++ t) ++ [qc] = pre ++ escape qc t ++ [qc]) by (rewrite Het, <- app_assoc; reflexivity).
+    destruct d' as [|c2 d'']; cbn [hd_error].
+    + exists t, []. repeat split.
+      * rewrite Hsp, Hd, Het. reflexivity.
+      * intros [r Hr]. discriminate Hr.
+      * rewrite <- Hpre. apply Hp3.
+      * rewrite <- Hpre. apply Hp3.
+      * apply Hi3.
+      * apply Hi3.
+    + destruct (c2 =? qc) eqn:E2.
+      * (* doubled quote: the string continues *)
+        apply N.eqb_eq in E2. subst c2.
+        destruct (next_spec_cons q ((pre ++ t) ++ [qc]) qc d'' st3 Hlen Hp3 Hi3) as [st4 [Hn4 [Hp4 Hi4]]].
+        rewrite Hn4. cbn [bind fst snd].
+        assert (Hf' : (length d'' < f)%nat).
+        { rewrite Hsp, Hd, app_length in Hfuel. cbn [length] in Hfuel. lia. }
+        specialize (IH (((pre ++ t) ++ [qc]) ++ [qc]) d'' st4 ((acc ++ t) ++ [qc]) Hp4 Hi4 Hf').
+        destruct (quoted_loop f qc q st4 ((acc ++ t) ++ [qc])) as [[body st5]|e| |].
+        -- destruct IH as [b' [rest' [Hb [Hr [Hnq [Hp5 Hi5]]]]]].
+           exists (t ++ qc :: b'), rest'.
+           assert (Hesc : escape qc (t ++ qc :: b') = t ++ qc :: qc :: escape qc b').
+           { rewrite escape_app, escape_quote_cons, Het. reflexivity. }
+           assert (Hpre2 : (((pre ++ t) ++ [qc]) ++ [qc]) ++ escape qc b' ++ [qc]
+                           = pre ++ escape qc (t ++ qc :: b') ++ [qc]).
+           { rewrite Hesc. repeat rewrite <- app_assoc. reflexivity. }
+           repeat split.
+           ++ rewrite Hb. repeat rewrite <- app_assoc. reflexivity.
+           ++ rewrite Hsp, Hd, Hr, Hesc. repeat rewrite <- app_assoc. reflexivity.
+           ++ exact Hnq.
+           ++ rewrite <- Hpre2. apply Hp5.
+           ++ rewrite <- Hpre2. apply Hp5.
+           ++ apply Hi5.
+           ++ apply Hi5.
+        -- destruct IH as [He [b' Hr]]. split; [exact He|]. exists (t ++ qc :: b').
+           rewrite escape_app, escape_quote_cons, Het, Hsp, Hd, Hr. reflexivity.
+        -- exact IH.
+        -- exact IH.
+      * exists t, (c2 :: d''). repeat split.
+        -- rewrite Hsp, Hd, Het. reflexivity.
+        -- intros [r Hr]. injection Hr as Hc _. subst c2. rewrite N.eqb_refl in E2. discriminate E2.
+        -- rewrite <- Hpre. apply Hp3.
+        -- rewrite <- Hpre. apply Hp3.
+        -- apply Hi3.
+        -- apply Hi3.
+Qed.
+
+Lemma quoted_spec qc q pre rest st :
+  blen q < USIZE -> at_pos q pre rest st -> inv q st ->
+  match take_quoted_string qc q st with
+  | Ok (body, st') =>
+    exists rest', rest = escape qc body ++ qc :: rest' /\ ~ (exists r, rest' = qc :: r) /\
+                  at_pos q (pre ++ escape qc body ++ [qc]) rest' st' /\ inv q st'
+  | Err e => e = Unterminated qc /\ exists b, rest = escape qc b
+  | _ => False
+  end.
+Proof.
+  intros Hlen Hp Hi. unfold take_quoted_string.
+  assert (Hf : (length rest < S (length q))%nat).
+  { destruct Hp as [Hq _]. rewrite Hq, app_length. lia. }
+  pose proof (quoted_loop_spec qc q Hlen (S (length q)) pre rest st [] Hp Hi Hf) as H.
+  destruct (quoted_loop (S (length q)) qc q st []) as [[body st']|e| |]; try exact H.
+  destruct H as [b [rest' [Hb [Hr [Hnq [Hp' Hi']]]]]]. cbn [app] in Hb. subst b.
+  exists rest'. repeat split; try assumption; try apply Hp'; try apply Hi'.
 Qed.
 
 Lemma num_pred_true pf c p' : num_pred pf c = (true, p') -> is_digit c || (c =? 46) = true.
@@ -443,7 +518,8 @@ Lemma run_arm_spec q pre c rest st :
   blen q < USIZE -> at_pos q pre (c :: rest) st -> inv q st ->
   match run_arm' (arm_of' c) c q st with
   | Ok (t, st') => step_ok q pre (c :: rest) t st'
-  | Err c' => c' = c /\ arm_of' c = AUnhandled
+  | Err e => (e = Unhandled c /\ arm_of' c = AUnhandled) \/
+             (exists b, e = Unterminated c /\ (c = 39 \/ c = 34) /\ rest = escape c b)
   | _ => False
   end.
 Proof.
@@ -503,13 +579,14 @@ Proof.
     subst c.
     destruct (next_spec_cons q pre 39 rest st Hlen Hp Hi) as [st1 [Hn [Hp1 Hi1]]].
     rewrite Hn. cbn [bind fst snd].
-    destruct (quoted_spec 39 q (pre ++ [39]) rest st1 Hlen Hp1 Hi1) as [body [st2 [src [rest' [Hq [Hr [Hnin [Hsrc [Hp2 Hi2]]]]]]]]].
-    rewrite Hq. cbn [bind fst snd]. apply at_pos_assoc in Hp2.
-    exists (39 :: src), rest'. repeat split; try apply Hp2; try apply Hi2.
-    + rewrite Hr. reflexivity.
-    + discriminate.
-    + exact Hnin.
-    + destruct Hsrc as [-> | [-> ->]]; [left; reflexivity | right; split; reflexivity].
+    pose proof (quoted_spec 39 q (pre ++ [39]) rest st1 Hlen Hp1 Hi1) as Hq.
+    destruct (take_quoted_string 39 q st1) as [[body st2]|e| |]; cbn [bind fst snd]; try exact Hq.
+    + destruct Hq as [rest' [Hr [Hnq [Hp2 Hi2]]]]. apply at_pos_assoc in Hp2.
+      exists (39 :: escape 39 body ++ [39]), rest'. repeat split; try apply Hp2; try apply Hi2.
+      * rewrite Hr. cbn [app]. rewrite <- app_assoc. reflexivity.
+      * discriminate.
+      * exact Hnq.
+    + destruct Hq as [He [b Hb]]. right. exists b. repeat split; [exact He | left; reflexivity | exact Hb].
   - (* number or period *)
     destruct (take_while_spec num_pred false q pre (c :: rest) st Hlen Hp Hi) as [st1 [Htw [Hp1 Hi1]]].
     pose proof (span_st_app num_pred (c :: rest) false) as Hsp.
@@ -542,22 +619,27 @@ Proof.
     subst c.
     destruct (next_spec_cons q pre 34 rest st Hlen Hp Hi) as [st1 [Hn [Hp1 Hi1]]].
     rewrite Hn. cbn [bind fst snd].
-    destruct (quoted_spec 34 q (pre ++ [34]) rest st1 Hlen Hp1 Hi1) as [body [st2 [src [rest' [Hq [Hr [Hnin [Hsrc [Hp2 Hi2]]]]]]]]].
-    rewrite Hq. cbn [bind fst snd]. apply at_pos_assoc in Hp2.
-    exists (34 :: src), rest'. repeat split; try apply Hp2; try apply Hi2.
-    + rewrite Hr. reflexivity.
-    + discriminate.
-    + exact Hnin.
-    + destruct Hsrc as [-> | [-> ->]]; [left; reflexivity | right; split; reflexivity].
-  - split; reflexivity.
+    pose proof (quoted_spec 34 q (pre ++ [34]) rest st1 Hlen Hp1 Hi1) as Hq.
+    destruct (take_quoted_string 34 q st1) as [[body st2]|e| |]; cbn [bind fst snd]; try exact Hq.
+    + destruct Hq as [rest' [Hr [Hnq [Hp2 Hi2]]]]. apply at_pos_assoc in Hp2.
+      exists (34 :: escape 34 body ++ [34]), rest'. repeat split; try apply Hp2; try apply Hi2.
+      * rewrite Hr. cbn [app]. rewrite <- app_assoc. reflexivity.
+      * discriminate.
+      * exact Hnq.
+    + destruct Hq as [He [b Hb]]. right. exists b. repeat split; [exact He | right; reflexivity | exact Hb].
+  - left. split; reflexivity.
 Qed.
+
+Definition err_at (e : lex_error) (c : N) (r : str) : Prop :=
+  (e = Unhandled c /\ arm_of' c = AUnhandled) \/
+  (exists b, e = Unterminated c /\ (c = 39 \/ c = 34) /\ r = escape c b).
 
 Lemma next_token_spec q pre rest st :
   blen q < USIZE -> at_pos q pre rest st -> inv q st ->
   match next_token' q st with
   | Ok (None, st') => rest = [] /\ inv q st'
   | Ok (Some t, st') => step_ok q pre rest t st'
-  | Err c => (exists r, rest = c :: r) /\ arm_of' c = AUnhandled
+  | Err e => exists c r, rest = c :: r /\ err_at e c r
   | _ => False
   end.
 Proof.
@@ -567,9 +649,9 @@ Proof.
   destruct rest as [|c rest]; cbn [hd_error].
   - split; [reflexivity | exact Hi0].
   - pose proof (run_arm_spec q pre c rest st0 Hlen Hp0 Hi0) as Hr.
-    destruct (run_arm' (arm_of' c) c q st0) as [[t st1]|c'| |]; cbn [bind fst snd].
+    destruct (run_arm' (arm_of' c) c q st0) as [[t st1]|e| |]; cbn [bind fst snd].
     + exact Hr.
-    + destruct Hr as [-> Ha]. split; [exists rest; reflexivity | exact Ha].
+    + exists c, rest. split; [reflexivity | exact Hr].
     + exact Hr.
     + exact Hr.
 Qed.
@@ -578,7 +660,7 @@ Lemma tok_loop_spec : forall fuel q pre rest st,
   blen q < USIZE -> at_pos q pre rest st -> inv q st -> (length rest < fuel)%nat ->
   match tok_loop' fuel q st (idx st) with
   | Ok (toks, st') => tiles' (idx st) rest toks /\ inv q st'
-  | Err c => In c rest /\ arm_of' c = AUnhandled
+  | Err e => exists pre' c r, rest = pre' ++ c :: r /\ err_at e c r
   | _ => False
   end.
 Proof.
@@ -595,11 +677,12 @@ Proof.
     destruct (tok_loop' f q st1 (idx st1)) as [[toks st2]|c| |]; cbn [bind fst snd].
     + destruct IH as [Ht Hi2]. split; [|exact Hi2]. rewrite Hr.
       apply tiles_cons; [exact Hne | exact Hsp | reflexivity | rewrite <- Hidx; exact Ht].
-    + destruct IH as [Hin Ha]. split; [|exact Ha]. rewrite Hr. apply in_or_app. right. exact Hin.
+    + destruct IH as [pre' [c0 [r0 [Hr0 He]]]]. exists (src ++ pre'), c0, r0. split; [|exact He].
+      rewrite Hr, Hr0, <- app_assoc. reflexivity.
     + exact IH.
     + exact IH.
   - destruct Hn as [-> Hi1]. split; [constructor | exact Hi1].
-  - destruct Hn as [[r ->] Ha]. split; [left; reflexivity | exact Ha].
+  - destruct Hn as [c0 [r0 [Hr0 He]]]. exists [], c0, r0. split; [exact Hr0 | exact He].
   - exact Hn.
   - exact Hn.
 Qed.
@@ -608,7 +691,7 @@ Lemma tokenize_spec q :
   blen q < USIZE ->
   match tokenize' q with
   | Ok (toks, st') => tiles' 0 q toks /\ inv q st'
-  | Err c => In c q /\ arm_of' c = AUnhandled
+  | Err e => exists pre c r, q = pre ++ c :: r /\ err_at e c r
   | _ => False
   end.
 Proof.
@@ -628,8 +711,13 @@ Proof.
   destruct (tokenize' q) as [[toks st]|c| |]; [left; eauto | right; eauto | contradiction | contradiction].
 Qed.
 
-Theorem lexer_error_only_unhandled q c :
-  blen q < USIZE -> tokenize' q = Err c -> In c q /\ arm_of' c = AUnhandled.
+(* the two errors, and where they come from: an unhandled character at a token start, or an opening quote whose
+   string (doubled quotes being escapes) runs to the end of the input *)
+Theorem lexer_errors_characterised q e :
+  blen q < USIZE -> tokenize' q = Err e ->
+  exists pre c r, q = pre ++ c :: r /\
+    ((e = Unhandled c /\ arm_of' c = AUnhandled) \/
+     (exists body, e = Unterminated c /\ (c = 39 \/ c = 34) /\ r = escape c body)).
 Proof. intros Hlen E. pose proof (tokenize_spec q Hlen) as H. rewrite E in H. exact H. Qed.
 
 Theorem lexer_slices_in_bounds q toks st :
